@@ -339,18 +339,25 @@ def _replay_real_app(args: dict) -> str | None:
             bad = (want is None and got is not None) or (want is ... and not (got or "").strip()) or (isinstance(want, str) and got != want)
             if bad:
                 return f"{verb} {path} -> {r.status_code}: header {name} = {got!r}, configuration implies {('absent' if want is None else 'a codec list' if want is ... else repr(want))}"
-    try:
-        client = _SyncTestClient(app)
-        caps = hc.http_capabilities(client=client)
-    except Exception as e:  # noqa: BLE001
-        return f"http_capabilities failed on the real app: {type(e).__name__}: {e}"
     mreq, mresp, mext, mup, ttl, storage, provider, compression, sticky, echo, proof, introspect = cfg
-    got = (caps.max_request_bytes, caps.max_response_bytes, caps.max_externalized_response_bytes, caps.externalization_enabled, caps.upload_url_support,
-           caps.max_upload_bytes, caps.sticky_enabled, caps.sticky_default_ttl, caps.sticky_echo_headers, bool(caps.supported_encodings))  # fmt: skip
     want = (mreq, mresp, mext, storage, provider, mup if provider else None, sticky, ttl if sticky else None, tuple(_ECHO) if (sticky and echo) else (), compression)
-    if got != want:
-        return f"http_capabilities read back {got}, configuration is {want}"
+    # two real clients: the repo's test client (lower-cased plain dict headers) and an httpx-like one
+    # (case-insensitive header lookup) fed with the real app's real OPTIONS /health response
+    real_options = tc.simulate_request("OPTIONS", "/health")
+    for label, client in (("_SyncTestClient", _SyncTestClient(app)), ("case-insensitive client", _ProbeClient(list(real_options.headers.items())))):
+        try:
+            caps = hc.http_capabilities(client=client)  # type: ignore[arg-type]
+        except Exception as e:  # noqa: BLE001
+            return f"http_capabilities failed on the real app ({label}): {type(e).__name__}: {e}"
+        got = _caps_tuple(caps)
+        if got != want:
+            return f"http_capabilities ({label}) read back {got}, configuration is {want}"
     return None
+
+
+def _caps_tuple(caps: object) -> tuple:
+    return (caps.max_request_bytes, caps.max_response_bytes, caps.max_externalized_response_bytes, caps.externalization_enabled, caps.upload_url_support,
+           caps.max_upload_bytes, caps.sticky_enabled, caps.sticky_default_ttl, caps.sticky_echo_headers, bool(caps.supported_encodings))  # fmt: skip
 
 
 def _canon(args: dict) -> dict:
